@@ -1,0 +1,32 @@
+//go:build verif
+
+package tan
+
+// White-box access for the /verif C04 check. Compiled only with -tags verif.
+// Add-only: nothing here is referenced by the regular build.
+
+// VerifC04Preopen opens (or returns the already open) tan db used by the
+// specified raft node exactly like collection.getDB does, but with the given
+// MaxLogFileSize, so that the regular log rotation (makeRoomForWrite) happens
+// with a small amount of data.
+func (l *LogDB) VerifC04Preopen(shardID uint64,
+	replicaID uint64, maxLogFileSize int64) error {
+	l.mu.Lock()
+	defer l.mu.Unlock()
+	c := &l.collection
+	if _, ok := c.keeper.get(shardID, replicaID); ok {
+		return nil
+	}
+	name := c.keeper.name(shardID, replicaID)
+	dbdir := c.fs.PathJoin(c.dirname, name)
+	if err := c.prepareDir(dbdir); err != nil {
+		return err
+	}
+	db, err := open(dbdir, dbdir,
+		&Options{FS: c.fs, MaxLogFileSize: maxLogFileSize})
+	if err != nil {
+		return err
+	}
+	c.keeper.set(shardID, replicaID, db)
+	return nil
+}
